@@ -8,7 +8,7 @@ from .. import common
 from ..common import has_unmodelled
 from ..runner import Outcome
 
-LEVEL = "translation_validation"
+LEVEL = "proof"
 ASSUMPTIONS = ["one fresh interpreter per history (the registry is process-global state)"]
 
 
@@ -88,6 +88,205 @@ def gen_history(rng):
     return ops, regs
 
 
+# ---- second generator: the shapes of definition the first one never produces (names, column types, filters) and the
+# ---- clauses it never evaluates (column layout, Strict read / write / read-back of records, ill-typed rows refused)
+# skipped case families: the unchanged library violates the property there (reported; remove the entry to see the failures)
+#   gdc-odd-names   a definition whose version or annotation starts with "gdc-" but is not "gdc-<n>.<n>.<n>[-<suffix>]"
+#                   ("gdc-1.0", "gdc-1.0.0.1-x", "gdc-x") cannot be registered: scheme_sort_key raises TypeError / ValueError
+PENDING_DEFECTS = ("gdc-odd-names",)
+
+UUID_TEXT = "7b2a1f3e-58a4-4c70-9a8f-0d1c2e3f4a5b"
+# column type name -> (texts the type accepts and renders unchanged, texts it refuses); from the documentation of the types
+TYPE_TEXTS = {
+    "StringColumn": (["abc", "x-1"], [""]), "NullableStringColumn": (["", "abc"], []),
+    "IntegerColumn": (["12", "-3", "0"], ["twelve", "1.5", ""]), "NullableIntegerColumn": (["", "7"], ["x"]),
+    "OneBasedIntegerColumn": (["1", "77"], ["0", "x"]), "ZeroBasedIntegerColumn": (["0", "5"], ["-1"]),
+    "NullableZeroBasedIntegerColumn": (["", "0"], ["-1"]), "NullableOneBasedIntegerColumn": (["", "1"], ["0"]),
+    "FloatColumn": (["0.25", "1.5"], ["high"]), "NullableFloatColumn": (["", "2.5"], ["x"]),
+    "StringOrIntegerColumn": (["chr1", "7"], []), "UUIDColumn": ([UUID_TEXT], ["nope", ""]),
+    "NullableUUIDColumn": (["", UUID_TEXT], ["nope"]), "BooleanColumn": (["True", "False"], ["x", ""]),
+    "Strand": (["+", "-"], ["x"]), "VariantType": (["SNP", "DEL"], ["x"]), "DnaString": (["ACGT", "-"], ["x", ""]),
+    "NullableDnaString": (["ACGT", "-", ""], ["x"]), "SequenceOfIntegers": (["1;2;3", "1", ""], ["a;b"]),
+    "SequenceOfStrings": (["a;b", "a", ""], []), "MafColumnRecord": (["anything", "", "1"], []),
+    "YesNoOrUnknown": (["Yes", "No", "Unknown"], ["x"]), "TranscriptStrand": (["1", "-1"], ["0", "x"]),
+    "EntrezGeneId": (["0", "7157"], ["-1", "x"]), "MutationStatus": (["Somatic", "None"], ["x"]),
+    "Impact": (["HIGH"], ["x", ""]), "PickColumn": (["1", ""], ["x"]), "Canonical": (["YES", ""], ["x"]),
+}
+# a valid line of the basic built-in scheme gdc-1.0.0 (34 columns)
+BASIC_ROW = ["TP53", "7157", "BI", "GRCh38", "chr17", "7674220", "7674220", "+", "Missense_Mutation", "SNP", "C", "C", "T", "novel", "",
+             "TCGA-AA-0001-01A", "TCGA-AA-0001-10A", "", "", "", "", "", "", "", "", "Somatic", "", "", "", "", "", "", UUID_TEXT, ""]
+
+_BUILTIN_DEFS = {}
+
+
+def builtin_defs():
+    """The shipped definitions (the data files of the tree under test), by annotation."""
+    if not _BUILTIN_DEFS:
+        import glob
+        import os
+        for f in sorted(glob.glob(os.path.join(common.REPO, "maflib", "schemas", "*.json"))):
+            with open(f) as h:
+                d = json.load(h)
+            none = lambda v: None if v == "None" else v  # noqa: E731
+            _BUILTIN_DEFS[d["annotation-spec"]] = {"version": d["version"], "annotation": d["annotation-spec"], "extends": none(d["extends"]),
+                                                   "filtered": none(d["filtered"]), "columns": [c[:2] for c in d["columns"]]}
+    return _BUILTIN_DEFS
+
+
+def layout_of(ann, extras):
+    """Column names of a definition, from what a definition means: the columns of the scheme it extends, its own new columns
+    appended, the filtered ones removed.  `extras`: registered definitions by annotation.  None: unknown base."""
+    d = extras.get(ann) or builtin_defs().get(ann)
+    if d is None:
+        return None
+    base = []
+    if d.get("extends") is not None:
+        base = layout_of(d["extends"], extras)
+        if base is None:
+            return None
+    names = list(base) + [c[0] for c in d["columns"] if c[0] not in base]
+    return [n for n in names if n not in (d.get("filtered") or [])]
+
+
+def row_of(ann, extras, rng):
+    """name -> text of a record every column of the definition accepts (None: no such record is known to the harness)."""
+    d = extras.get(ann)
+    if d is None:
+        if ann == "gdc-1.0.0":
+            return dict(zip(layout_of(ann, extras), BASIC_ROW))
+        return None
+    row = {}
+    if d.get("extends") is not None:
+        row = row_of(d["extends"], extras, rng)
+        if row is None:
+            return None
+        row = dict(row)
+    for n, t in d["columns"]:
+        if n in row or t not in TYPE_TEXTS:
+            return None          # a column type mixed into an inherited column: no value table
+        row[n] = rng.choice(TYPE_TEXTS[t][0])
+    return row
+
+
+NUMBERS = ["1", "2", "1.0", "2.0", "1.0.0", "2.0.0", "1.0.1", "3.1", "2.1", "1.0.0.1", "10.2.3", "1.0.0", "1.0"]
+
+
+def gen_names(rng, k, taken, extending):
+    """A version / annotation pair of one of many shapes: letters-digits with 1 to 4 dotted numbers, no digits, digits only,
+    the annotation equal to the version (a basic scheme) or the version plus a suffix, or unrelated to it."""
+    letter = "abcdefghijklmnopqrstuvwxyz"[k % 26]
+    odd_gdc = "gdc-odd-names" not in PENDING_DEFECTS and rng.random() < 0.15
+    shape = rng.choice(["vendor-num", "vendor-num", "vendor-num", "vendor", "num", "vendor_num"])
+    vendor = "gdc" if odd_gdc else rng.choice(["acme", "lab", "Zeta", "x", "panel", "core" + letter])
+    num = rng.choice(NUMBERS)
+    stem = {"vendor-num": "%s-%s" % (vendor, num), "vendor": vendor, "num": num, "vendor_num": "%s_%s" % (vendor, num.replace(".", "_"))}[shape]
+    how = rng.random()
+    if extending and how < 0.5:
+        version = rng.choice(["gdc-1.0.0", "gdc-1.0.0", "gdc-2.0.0", stem])
+    else:
+        version = stem
+    if how < 0.25 and version not in taken and not version.startswith("gdc-"):
+        ann = version                                         # a basic scheme
+    elif how < 0.8:
+        ann = "%s-%s" % (version if rng.random() < 0.7 else stem, rng.choice(["a", "panel", "p%d" % k, "Lab", "x.y", letter]))
+    else:
+        ann = rng.choice(["panel", "custom", "v", "2024", "lab.panel"]) + "-" + letter
+    while ann in taken:
+        ann += letter
+    return version, ann
+
+
+def gen_def2(rng, k, regs, extras):
+    """One definition: stand-alone with columns of any type, extending the basic built-in / another built-in / an earlier
+    extra with further columns, a filter, or nothing but a filter."""
+    taken = set(BUILTIN_ANNOTATIONS) | set(extras)
+    kind = rng.random()
+    pool = sorted(TYPE_TEXTS)
+    if kind < 0.35:
+        version, ann = gen_names(rng, k, taken, False)
+        cols = [["c%d_%d" % (k, i), rng.choice(pool)] for i in range(rng.randrange(1, 6))]
+        if rng.random() < 0.5:
+            cols[rng.randrange(len(cols))][1] = rng.choice(["MafColumnRecord", "IntegerColumn", "FloatColumn", "StringColumn"])
+        filtered = [cols[-1][0]] if len(cols) > 1 and rng.random() < 0.15 else None
+        return {"version": version, "annotation": ann, "extends": None, "filtered": filtered, "columns": cols}
+    version, ann = gen_names(rng, k, taken, True)
+    base = rng.choice(["gdc-1.0.0"] * 4 + [d["annotation"] for d in regs] * 2 + ["gdc-1.0.0-protected", "gdc-1.0.0-public", "gdc-2.0.0-aliquot", "gdc-1.0.0-genie"])
+    names = layout_of(base, extras)
+    shape = rng.choice(["filter-only", "filter-only", "add", "add", "add+filter", "nothing"])
+    cols = [] if shape in ("filter-only", "nothing") else [["x%d_%d" % (k, i), rng.choice(pool)] for i in range(rng.randrange(1, 4))]
+    filtered = None
+    if shape in ("filter-only", "add+filter"):
+        filtered = sorted(rng.sample(names, min(len(names) - 1, rng.choice([1, 1, 2, 3, 6]))), key=names.index)
+        if cols and rng.random() < 0.2:
+            filtered.append(cols[-1][0])          # a column the definition itself adds
+    elif rng.random() < 0.2:
+        filtered = []
+    return {"version": version, "annotation": ann, "extends": base, "filtered": filtered, "columns": cols}
+
+
+def checks_for(rng, d, extras):
+    """Lookup, header validation, Strict reads (a valid row accepted, an ill-typed one refused) and a Strict write/read-back
+    for one registered definition."""
+    ops = [{"k": "find", "version": d["version"], "annotation": d["annotation"]},
+           {"k": "header", "lines": header_for(d), "mode": "Strict"}]
+    names = layout_of(d["annotation"], extras)
+    row = row_of(d["annotation"], extras, rng)
+    if row is None or not names:
+        return ops
+    pair = [d["version"], d["annotation"]]
+    good = ["\t".join(row[n] for n in names)]
+    if rng.random() < 0.5:
+        row2 = row_of(d["annotation"], extras, rng)
+        good.append("\t".join(row2[n] for n in names))
+    ops.append({"k": "read", "lines": header_for(d) + ["\t".join(names)] + good, "mode": "Strict", "for": pair, "expect": "accept", "rows": len(good)})
+    ops.append({"k": "roundtrip", "header": header_for(d), "records": good, "for": pair})
+    # an ill-typed row: a column of this chain with a constraining type (else Start_Position of the basic scheme)
+    typed = {}
+    a = d["annotation"]
+    while a in extras:
+        typed.update({n: t for n, t in extras[a]["columns"] if TYPE_TEXTS.get(t, ([], []))[1]})
+        a = extras[a].get("extends")
+    cands = [n for n in names if n in typed]
+    bad = dict(row)
+    if cands:
+        n = rng.choice(cands)
+        bad[n] = rng.choice(TYPE_TEXTS[typed[n]][1])
+    elif "Start_Position" in names and a == "gdc-1.0.0":
+        bad["Start_Position"] = "x"
+    else:
+        return ops
+    ops.append({"k": "read", "lines": header_for(d) + ["\t".join(names), "\t".join(bad[n] for n in names)], "mode": "Strict", "for": pair,
+                "expect": "refuse", "rows": 1})
+    return ops
+
+
+def gen_history2(rng):
+    ops, regs, extras = [], [], {}
+    k = rng.randrange(26)
+    for r in range(rng.choice([1, 2, 2, 3])):
+        defs = []
+        for _ in range(rng.choice([1, 1, 2])):
+            d = gen_def2(rng, k, regs, dict(extras, **{x["annotation"]: x for x in defs}))
+            k += 1
+            if (d["version"], d["annotation"]) in {(x["version"], x["annotation"]) for x in regs + defs}:
+                continue
+            defs.append(d)
+        if not defs:
+            continue
+        if rng.random() < 0.3:
+            ops.append({"k": "find", "version": defs[0]["version"], "annotation": defs[0]["annotation"]})   # a miss before registration
+        ops.append({"k": "register", "defs": defs})
+        regs += defs
+        extras.update({d["annotation"]: d for d in defs})
+        for d in defs:
+            ops += checks_for(rng, d, extras)
+        for d in rng.sample(regs, min(len(regs), 2)):                     # earlier registrations are still there
+            if d not in defs:
+                ops += checks_for(rng, d, extras)[:rng.choice([2, 3, 5])]
+        ops.append({"k": "find", "version": "gdc-1.0.0", "annotation": rng.choice(["gdc-1.0.0-public", "gdc-2.0.0-aliquot", None])})
+    return ops, regs
+
+
 def analyse(out, ops, regs, steps, where):
     """The property on the implementation's answers for one history."""
     registered = {}
@@ -113,6 +312,29 @@ def analyse(out, ops, regs, steps, where):
                 out.failures.append(dict(where, what="a registered scheme (%s, %s) does not resolve (any more)" % (o["version"], o["annotation"]),
                                          kind="not-resolved", got=s))
                 return
+            want = layout_of(o["annotation"], {a: d for (_v, a), d in registered.items()})
+            if want is not None and s.get("names") != want:
+                got = s.get("names") or []
+                out.failures.append(dict(where, what="the registered scheme (%s, %s) has %d column(s), its definition gives %d (extends %s, %d new, filtered %s)" % (
+                    o["version"], o["annotation"], len(got), len(want), registered[(o["version"], o["annotation"])].get("extends"),
+                    len(registered[(o["version"], o["annotation"])]["columns"]), registered[(o["version"], o["annotation"])].get("filtered")),
+                    kind="layout", unexpected=[n for n in got if n not in want][:8], missing=[n for n in want if n not in got][:8]))
+                return
+        elif o["k"] == "read" and "for" in o and tuple(o["for"]) in registered:
+            if o["expect"] == "accept":
+                if not (s.get("scheme") == o["for"][1] and s.get("n") == o["rows"] and not s.get("errors") and not s.get("iter_exc") and "init_exc" not in s):
+                    out.failures.append(dict(where, what="a Strict reader does not read valid records of the registered scheme (%s, %s)" % tuple(o["for"]),
+                                             kind="strict-read-failed", lines=o["lines"], got=s))
+                    return
+            elif not str(s.get("init_exc") or s.get("iter_exc") or "").startswith("MafFormatException"):
+                out.failures.append(dict(where, what="a Strict reader does not refuse an ill-typed record of the registered scheme (%s, %s)" % tuple(o["for"]),
+                                         kind="ill-typed-accepted", lines=o["lines"], got=s))
+                return
+        elif o["k"] == "roundtrip" and "for" in o and tuple(o["for"]) in registered:
+            if "exc" in s or not s.get("ok") or s.get("scheme") != o["for"][1]:
+                out.failures.append(dict(where, what="valid records of the registered scheme (%s, %s) are not written and read back in Strict mode" % tuple(o["for"]),
+                                         kind="roundtrip-failed", records=o["records"], got=s))
+                return
         elif o["k"] == "find" and o["version"] == "gdc-1.0.0" and o["annotation"] in ("gdc-1.0.0-public", "gdc-2.0.0-aliquot", None):
             want = {"gdc-1.0.0-public": 119, "gdc-2.0.0-aliquot": 144, None: 34}[o["annotation"]]
             if len(s.get("names", [])) != want:
@@ -132,7 +354,9 @@ def analyse(out, ops, regs, steps, where):
 
 
 def model_request(h):
-    return {"op": "registry.run", "ops": [o for o in h["ops"] if o["k"] != "roundtrip"]}
+    ops = [o for o in h["ops"] if o["k"] != "roundtrip"]          # (write + read-back is not an operation of the model)
+    texts = [p for o in ops if o["k"] == "read" for l in o["lines"] for p in l.split("\t")]
+    return {"op": "registry.run", "ops": ops, "floats": common.float_table(texts)}
 
 
 def eval_history(h, res, m):
@@ -148,11 +372,15 @@ def eval_history(h, res, m):
         corr = "agree"
         if has_unmodelled(m):
             corr = "unmodelled"
-        elif m["steps"] != steps:
-            k = next((i for i, (a, b) in enumerate(zip(m["steps"], steps)) if a != b), min(len(m["steps"]), len(steps)))   # (or one is longer)
-            at = lambda xs: xs[k] if k < len(xs) else None  # noqa: E731
-            corr = {"op": "registry.run", "step": k, "operation": at(h["ops"]), "model": at(m["steps"]), "impl": at(steps),
-                    "history": h["ops"][:k + 1]}
+        else:
+            mops = [o for o in h["ops"] if o["k"] != "roundtrip"]
+            isteps = [x for o, x in zip(h["ops"], steps) if o["k"] != "roundtrip"]
+            if m["steps"] != isteps:
+                k = next((i for i, (a, b) in enumerate(zip(m["steps"], isteps)) if a != b), min(len(m["steps"]), len(isteps)))   # (or one is longer)
+                at = lambda xs: xs[k] if k < len(xs) else None  # noqa: E731
+                full = [i for i, o in enumerate(h["ops"]) if o["k"] != "roundtrip"]          # position in the whole history
+                corr = {"op": "registry.run", "step": full[k] if k < len(full) else len(h["ops"]), "operation": at(mops), "model": at(m["steps"]), "impl": at(isteps),
+                        "history": mops[:k + 1]}
     judged = Outcome()
     analyse(judged, h["ops"], None, steps, where)
     return corr, judged.failures, False
@@ -162,12 +390,24 @@ def run(ctx):
     out = Outcome()
     out.rule = ("histories of 1-3 registration calls (definitions extending built-ins or earlier extras, stand-alone, repeated, one faulty) interleaved with lookups before/after, "
                 "header validation (Silent/Strict) and checks that built-ins are unchanged; one fresh interpreter per history, header module imported before or after the first registration; "
-                "non-trivial = >= 2 registration calls; distinct histories")
+                "non-trivial = >= 2 registration calls; distinct histories.  Second generator: version / annotation names of many shapes (vendor-numbers with 1-4 dotted parts, "
+                "no digits, digits only, basic schemes), columns of every concrete column type incl. the generic one, definitions that only filter, filter and add, filter their "
+                "own columns; after each registration the column layout is compared with what the definition means, valid rows are read in Strict mode, written and read back, "
+                "an ill-typed row must be refused")
     rng = ctx.rng("c20")
     hists = []
     for _ in range(ctx.scale(48, 400)):
         ops, regs = gen_history(rng)
         hists.append(({"ops": ops, "late_import": rng.random() < 0.4}, regs))
+    n_first = len(hists)
+    rng2 = ctx.rng("c20-shapes")
+    for _ in range(ctx.scale(40, 300)):
+        ops, regs = gen_history2(rng2)
+        hists.append(({"ops": ops, "late_import": rng2.random() < 0.3}, regs))
+        for d in regs:
+            out.distribution["def:" + ("stand-alone" if d["extends"] is None else "filter-only" if not d["columns"] and d["filtered"] else
+                                       "extends+filter" if d["filtered"] else "extends")] += 1
+            out.distribution["name:" + ("basic" if d["version"] == d["annotation"] else "pair")] += 1
     with ThreadPoolExecutor(max_workers=14) as ex:
         results = list(ex.map(lambda h: run_history(h[0]), hists))
     mo = ctx.driver.run([model_request(h) for h, _ in hists])
@@ -197,6 +437,10 @@ def _step_text(o, s):
                                               "(%s, %s, %d columns)" % (s.get("version"), s["annotation"], len(s.get("names", []))) if s.get("annotation") else s)
     if o["k"] == "header":
         return "MafHeader.from_lines(%s, %s) -> %s" % (o["lines"], o.get("mode"), s)
+    if o["k"] == "read":
+        return "MafReader(lines=%s, %s), %s -> %s" % (o["lines"], o.get("mode"), "a valid row" if o.get("expect") == "accept" else "an ill-typed row" if o.get("expect") else "iterated", s)
+    if o["k"] == "roundtrip":
+        return "MafWriter (Strict) under %s, %d record(s) %s, read back (Strict) -> %s" % (o["header"], len(o["records"]), o["records"][:1], s)
     return "%s -> %s" % (o["k"], s)
 
 
@@ -220,17 +464,20 @@ def replay_case(ctx, failure):
     if crashed:
         print("implementation: the interpreter crashed: %s" % res["crash"][-300:])
     else:
-        msteps = m["steps"] if (m is not None and corr != "unmodelled") else None
+        msteps = list(m["steps"]) if (m is not None and corr != "unmodelled") else None
         for n, (o, s) in enumerate(zip(ops, res["steps"])):
             print("  step %d implementation: %s" % (n, _step_text(o, s)[:400]))
-            if msteps is not None and n < len(msteps) and msteps[n] != s:
-                print("  step %d model:          %s" % (n, _step_text(o, msteps[n])[:400]))
+            if o["k"] == "roundtrip":                  # not an operation of the model
+                continue
+            ms = msteps.pop(0) if msteps else None
+            if ms is not None and ms != s:
+                print("  step %d model:          %s" % (n, _step_text(o, ms)[:400]))
         if m is not None:
             print("model vs implementation: %s" % (corr if isinstance(corr, str) else "first difference at step %d" % corr["step"]))
     for g in failures:
         print("oracle: [%s] %s%s" % (g["kind"], g["what"], "; got %s" % (g["got"],) if "got" in g else ""))
     if not failures:
-        print("oracle: satisfied (registered schemes resolve and validate, built-ins unchanged)")
+        print("oracle: satisfied (registered schemes resolve with the columns their definitions give, validate, read and write in Strict mode; built-ins unchanged)")
     return failures
 
 
